@@ -104,6 +104,7 @@ type FuncGen struct {
 	opaque     map[string]bool
 	frameCache map[string][]frameLoc
 	ghostState *State // state in which `ghost at call` statements of an uncontracted call are evaluated
+	localGhostSorts map[string]Sort // per-function ghost state (e.g. visited sets of map ranges) -> sort
 	postParts  map[int][]string
 	assignParts []string
 	retGuards  []string
@@ -360,6 +361,9 @@ func isScalarPointee(t types.Type) bool {
 // assumeWellTyped adds range/shape facts for a value of type t that came from outside (param, load, call result).
 func (g *FuncGen) assumeWellTyped(v Val, t types.Type, st *State) {
 	guard := g.curGuardOrTrue()
+	if _, isTP := types.Unalias(t).(*types.TypeParam); isTP {
+		return // values of a type parameter are elements of an uninterpreted sort: nothing to assume
+	}
 	switch u := types.Unalias(t).Underlying().(type) {
 	case *types.Basic:
 		if ii, ok := basicIntInfo(u); ok && g.c.mathInts {
@@ -663,6 +667,19 @@ func (g *FuncGen) mergeStates(preds []*ssa.BasicBlock, conds []string, label str
 		name := name
 		st.ghost[name] = merge(func(s *State) string { return s.ghost[name] }, "ghost_"+name, g.specSort(gv.Type))
 	}
+	// per-range "visited" sets (only where every predecessor has one)
+	for name, srt := range g.localGhostSorts {
+		name := name
+		all := true
+		for _, p := range preds {
+			if _, ok := g.exitSt[p].ghost[name]; !ok {
+				all = false
+			}
+		}
+		if all {
+			st.ghost[name] = merge(func(s *State) string { return s.ghost[name] }, "vis", srt)
+		}
+	}
 	return st
 }
 
@@ -858,6 +875,30 @@ func (g *FuncGen) havocForLoop(li *loopInfo) {
 			g.cur.ghost[name] = c.fresh("ghost_"+name+"@"+label, g.specSort(gv.Type))
 		}
 	}
+	// the "visited" set of every map range that advances inside this loop changes with each iteration
+	for b := range li.blocks {
+		for _, in := range b.Instrs {
+			if nx, ok := in.(*ssa.Next); ok {
+				if rng, ok := nx.Iter.(*ssa.Range); ok {
+					if srt, ok := g.localGhostSorts[visitedKey(rng)]; ok {
+						g.cur.ghost[visitedKey(rng)] = c.fresh("visited@"+label, srt)
+					}
+				}
+			}
+		}
+	}
+}
+
+// rangeOfLoop: the map range a loop iterates (its header holds the Next), if any.
+func (g *FuncGen) rangeOfLoop(li *loopInfo) *ssa.Range {
+	for _, in := range li.header.Instrs {
+		if nx, ok := in.(*ssa.Next); ok {
+			if rng, ok := nx.Iter.(*ssa.Range); ok {
+				return rng
+			}
+		}
+	}
+	return nil
 }
 
 func (g *FuncGen) loopWritesGhost(li *loopInfo, name string) bool {
@@ -1015,6 +1056,20 @@ func (g *FuncGen) cmpLT(a, b Val) string {
 func (g *FuncGen) loopWrites(li *loopInfo) (map[string]bool, bool) {
 	classes := map[string]bool{}
 	all := false
+	// ghost statements of this function that assign ghost fields may run inside the loop: havoc all model state
+	if g.contract != nil {
+		for _, ga := range g.contract.Ghosts {
+			for _, st := range ga.Stmts {
+				if st.Kind == "set" && strings.Contains(st.Var, ".") {
+					for _, cl := range g.c.classList {
+						if strings.HasPrefix(cl, "G_") {
+							classes[cl] = true
+						}
+					}
+				}
+			}
+		}
+	}
 	for b := range li.blocks {
 		for _, in := range b.Instrs {
 			cl, a := g.instrWrites(in)
@@ -1101,6 +1156,12 @@ func isErrorType(t types.Type) bool {
 func (g *FuncGen) envAtLoopHead(li *loopInfo, bind map[ssa.Value]Val, st *State) *Env {
 	env := g.envAt(st, g.entry, nil)
 	h := li.header
+	if rng := g.rangeOfLoop(li); rng != nil {
+		if t, ok := st.ghost[visitedKey(rng)]; ok {
+			// `visited`: the set of keys this range has already yielded
+			env.vars["visited"] = Val{T: t, S: g.localGhostSorts[visitedKey(rng)]}
+		}
+	}
 	env.look = func(name string) (Val, bool) {
 		getv := func(v ssa.Value) Val {
 			if bind != nil {
